@@ -27,12 +27,19 @@ TRUSTED = [
     'astropy FITS/Table I/O, the .ply text reader and numpy angles_to_x are exercised, not modelled (the model is given the '
     'exact rational values of the doubles the implementation holds)',
     'harness/impl/c12_impl.py writes the .ply / FITS / window_blist+window_bcaps files the readers are run on',
+    'round 6: calls with 6.5e4 .. 2e6 points are judged through C12_in_window_pointwise / _copies / _split / _same_point: the '
+    'points are copies of <= 40 points whose answers the model computes; harness/impl/c12_impl.py (expand_index, summarise) '
+    'checks with numpy that every position carries the answer of its point and reports first / last occurrence to Coq; '
+    'for RA/Dec input of the large-N and reused-array families the Cartesian vector given to the model is computed by the '
+    'harness (math module), independently of angles_to_x',
 ]
 ASSUMPTIONS = [
     'points exactly on a cap boundary (1 - x.p = |cm|) count as inside for cm and -cm alike (code convention, proved: '
     'C12_boundary_in_both_R; "complement" holds off the boundary: C12_neg_cap_is_complement_R); such ties and near-ties are '
     'tested only where the implementation arithmetic is exact (axis centres, grid points, 1 - |cm| representable); elsewhere '
     'points keep 1e-11 from every boundary',
+    'nested lists / tuples of points are not documented input (ndarray is): an exception is accepted for them, an answer is '
+    'judged; in-place edits of a polygon\'s own x / cm arrays are judged against the caps the polygon then reports',
     '|cm| <= 2, unit-length x and p up to rounding; float32 cap tables, polygons with zero caps in .ply files and negative '
     'or >= 63 index-list entries are outside the generated inputs',
     'set_use_caps: every tolerance comparison is driven over a ladder of absolute (tol * {0, 1e-3, 0.5, 0.999, 1.001, 2, '
@@ -251,6 +258,17 @@ def gen_poly(rng, focus, ncaps, k):
             'str': C.dyadic(rng, 0, 4, 6)}
 
 
+def derived_routes(routes, empty=False):
+    """round 6 (class H): polygon lists DERIVED from the keyword-constructed one (pickle round trip, deepcopy, copy.copy per
+    polygon, list slices re-joined, copy constructor) and a slice of the raw FITS table must answer as their originals"""
+    out = ['pickle', 'deepcopy', 'copy.copy', 'list_slices']
+    if not empty and 'copy' in routes:
+        out.append('copy_ctor')        # ManglePolygon(whole-sky polygon) has no arrays to copy (as for route 'copy')
+    if 'fits_raw' in routes:
+        out.append('fits_slice')
+    return out
+
+
 def gen_window_job(rng, allcaps, onecap, empty=False, nopoly=False):
     """empty: one polygon of the list has no caps (whole sky); nopoly: the list itself is empty"""
     npoly = 0 if nopoly else rng.randint(1, 5)
@@ -325,6 +343,7 @@ def gen_window_job(rng, allcaps, onecap, empty=False, nopoly=False):
         routes += ['kwargs_default', 'ply', 'balkans'] if allcaps else ['ply_assign']
         if onecap:
             routes += ['fits1_raw', 'fits1_conv']
+    routes += derived_routes(routes, empty)
     pad = []
     for _ in range(6):
         x, cm = cap_around(rng, rng.choice(foci))
@@ -449,6 +468,7 @@ def gen_exact_window_job(rng, allcaps):
     pts = [pts[i] for i in keep]
     kinds = [kinds[i] for i in keep]
     routes = ['kwargs', 'copy', 'add_caps', 'fits_raw', 'fits_conv'] + (['kwargs_default', 'ply', 'balkans'] if allcaps else ['ply_assign'])
+    routes += derived_routes(routes)
     pad = [{'x': list(rng.choice(AXES)), 'cm': rng.choice(SPECIAL_CM)} for _ in range(4)]
     t = rng.random()
     job = {'f': 'window', 'polys': polys, 'pad': pad, 'ncaps': 0 if t < 0.7 else rng.randint(1, 4), 'pts': pts,
@@ -484,6 +504,7 @@ def f32(v):
     return struct.unpack('f', struct.pack('f', v))[0]
 
 
+TOLERANT_VARIANTS = ('list', 'tuple')
 MARGIN32 = Fr(1, 10 ** 4)      # float32 arithmetic inside the implementation: stay 1e-4 from every boundary
 
 
@@ -524,7 +545,13 @@ def gen_types_job(rng, k):
     radec = [rd for rd in radec if all(margin32_ok(x, cm, xyz_of_radec(rd)) for x, cm in allc)]
     cart = [p for p in cart if all(margin32_ok(x, cm, p) for x, cm in allc)]
     variants = {'f8': ['f8', 'f8', 'f8'], 'f4': ['f4', 'f4', 'f4'], 'f4pts': ['f8', 'f8', 'f4'], 'be': ['be', 'be', 'be'],
-                'nc': ['nc', 'nc', 'nc'], 'fo': ['f8', 'f8', 'fo']}
+                'nc': ['nc', 'nc', 'nc'], 'fo': ['f8', 'f8', 'fo'],
+                # round 6 (memory layout): (3, N) array transposed, reversed strides (rows; rows and columns), Fortran caps
+                'tv': ['f8', 'f8', 'tv'], 'tvcaps': ['tv', 'tv', 'tv'], 'rv': ['rv', 'rv', 'rv'], 'cr': ['cr', 'cr', 'cr'],
+                'focaps': ['fo', 'f8', 'nc'],
+                # round 6 (argument variety): nested lists / tuples of points -- pydl documents ndarray input, so an exception is
+                # accepted for these two, but an ANSWER must be the caps' answer
+                'list': ['f8', 'f8', 'list'], 'tuple': ['f8', 'f8', 'tuple']}
     if pts_integral:
         variants['ipts'] = ['f8', 'f8', 'i8']
     if caps_integral:
@@ -532,7 +559,7 @@ def gen_types_job(rng, k):
     t = rng.random()
     return {'f': 'types', 'x': xs, 'cm': cms, 'use_caps': rng.getrandbits(n) | 1 if rng.random() < 0.7 else (1 << n) - 1,
             'ncaps': 0 if t < 0.7 else rng.randint(1, 3), 'cart': cart, 'radec': radec, 'variants': variants,
-            'cm_form': rng.choice([None, 'pyfloat', 'zero_d', 'one_elem'])}
+            'cm_form': rng.choice([None, 'pyfloat', 'zero_d', 'one_elem']), 'ncaps_form': rng.choice([None, 'npint', 'npint32'])}
 
 
 def gen_file_polys(rng, allcaps):
@@ -619,6 +646,143 @@ def gen_history_job(rng):
         x, cm = cap_around(rng, f)
         pad.append({'x': x, 'cm': cm})
     return {'f': 'history', 'polys': polys, 'pts': pts, 'ops': ops, 'pad': pad}
+
+
+# ---------------------------------------------------------------- round 6: sizes beyond small, reused arrays, layouts
+
+def strict_ok(x, cm, p):
+    """away from the boundary by the margin, without the exact-arithmetic exception (the Cartesian vector of an RA/Dec
+    point is computed here with the math module, which may differ from numpy's in the last bit)"""
+    return abs(exact_omd(x, p) - abs(Fr(cm))) > MARGIN
+
+
+def small_points(rng, polys, foci, nrand=6, nnear=5):
+    """small point set (Cartesian, RA/Dec of the same directions) decided away from every cap boundary in both forms"""
+    allc = [(x, cm) for p in polys for x, cm in zip(p['x'], p['cm'])]
+    cand, kinds = [], []
+    for _ in range(nrand):
+        cand.append(rand_unit(rng))
+        kinds.append('random')
+    for f in foci:
+        cand.append(list(f))
+        kinds.append('focus')
+        for _ in range(nnear):
+            cand.append(near(rng, f, rng.choice([0.05, 0.3, 1.0])))
+            kinds.append('near-focus')
+    for x, cm in allc[:8]:
+        cand.append(list(x))
+        kinds.append('centre')
+        cand.append([-x[0], -x[1], -x[2]])
+        kinds.append('antipode')
+    pts, rds, ks = [], [], []
+    for p, k in zip(cand, kinds):
+        rd = radec_of(p)
+        p2 = xyz_of_radec(rd)
+        if all(strict_ok(x, cm, p) and strict_ok(x, cm, p2) for x, cm in allc):
+            pts.append(p)
+            rds.append(rd)
+            ks.append(k)
+    return pts, rds, ks
+
+
+def gen_masked_polys(rng, foci, npoly, maxcaps=5):
+    polys = []
+    for k in range(npoly):
+        n = rng.randint(1, maxcaps)
+        p = gen_poly(rng, rng.choice(foci), n, k)
+        t = rng.random()
+        p['use_caps'] = (1 << n) - 1 if t < 0.4 else (rng.getrandbits(n) or 1)
+        polys.append(p)
+    return polys
+
+
+LARGE_QUICK = ['2^18+k', '600000', '2^16+k']
+LARGE_THOROUGH = ['2^18-1', '2^18', '2^18+1', '2^18+k', '2*2^18+k', '3*2^18', '600000', '2^20+k', '1000003', '2^15+k', '2^16',
+                  '2^17+k', '2^18+k', '2^19+k', '2^21+5', '2^18+k']
+
+
+def large_n(rng, name):
+    k = rng.randint(1, 5000)
+    return {'2^18-1': (1 << 18) - 1, '2^18': 1 << 18, '2^18+1': (1 << 18) + 1, '2^18+k': (1 << 18) + k, '2*2^18+k': (2 << 18) + k,
+            '3*2^18': 3 << 18, '600000': 600000, '2^20+k': (1 << 20) + k, '1000003': 1000003, '2^15+k': (1 << 15) + k,
+            '2^16': 1 << 16, '2^16+k': (1 << 16) + k, '2^17+k': (1 << 17) + k, '2^19+k': (1 << 19) + k, '2^21+5': (1 << 21) + 5}[name]
+
+
+def gen_large_job(rng, k, name):
+    """One call with n points, n beyond internal block sizes / 16-bit counters; the points are copies of a small point
+    set (tiled, at random positions, or in long runs), so the answer must be the small answer at every position."""
+    foci = [rand_unit(rng) for _ in range(rng.randint(1, 2))]
+    for _ in range(20):
+        polys = gen_masked_polys(rng, foci, rng.randint(2, 4))
+        pts, rds, kinds = small_points(rng, polys, foci)
+        if len(pts) >= 8:
+            break
+    n = large_n(rng, name)
+    t = rng.random()
+    with_caps = [i for i, p in enumerate(polys) if p['cm']]
+    c0 = polys[with_caps[0]]
+    ci = rng.randrange(len(c0['cm']))
+    return {'f': 'large', 'polys': polys, 'pts': pts, 'radec': rds, 'kinds': kinds, 'n': n, 'size_class': name,
+            'pattern': ['tile', 'random', 'runs'][k % 3], 'seed': rng.randrange(1 << 30),
+            'split': rng.choice([n // 2, n - 1, 1, min(n - 1, 1 << 18), rng.randint(1, n - 1)]),
+            'ncaps': 0 if t < 0.7 else rng.randint(1, 4), 'inpoly': sorted(set([0, len(polys) - 1])),
+            'cap': {'x': c0['x'][ci], 'cm': c0['cm'][ci]}}
+
+
+REFILL = {'radec': ['assign', 'assign', 'assign_rows', 'shift', 'flipdec', 'roll', 'out'],
+          'cart': ['assign', 'assign', 'assign_rows', 'negate', 'roll', 'swapcols', 'out']}
+
+
+def gen_reuse_job(rng, k):
+    """Calls in one process with ONE coordinate array per input form that the caller refills in place between the
+    calls (and a second array of the same shape, and fresh views of the same memory), on polygons whose own x / cm
+    arrays are edited in place between calls."""
+    f = rand_unit(rng)
+    polys = gen_masked_polys(rng, [f], rng.randint(2, 3), maxcaps=4)
+    npts = 0 if k % 12 == 11 else rng.choice([1, 2, 3, 5, 8])     # also: a single point, no point at all
+    nsets = 5
+
+    def one_set():
+        out = []
+        for _ in range(npts):
+            t = rng.random()
+            out.append(list(f) if t < 0.1 else (near(rng, f, rng.choice([0.05, 0.3, 1.0])) if t < 0.7 else rand_unit(rng)))
+        return out
+    cart_sets = [one_set() for _ in range(nsets)]
+    radec_sets = [[radec_of(p) for p in one_set()] for _ in range(nsets)]
+    steps = []
+    forms = ['radec', 'radec', 'cart'] if k % 3 else ['radec', 'cart', 'cart']
+    for si in range(rng.randint(14, 20)):
+        if si > 2 and rng.random() < 0.15:
+            pk = rng.randrange(len(polys))
+            c = rng.randrange(len(polys[pk]['cm']))
+            e = rng.choice(['cm_neg', 'cm_set', 'x_set', 'use_set'])
+            st = {'edit': e, 'k': pk, 'c': c}
+            if e == 'cm_set':
+                st['v'] = float(rand_cm(rng))
+            elif e == 'x_set':
+                st['v'] = rand_unit(rng)
+            elif e == 'use_set':
+                st['v'] = rng.getrandbits(len(polys[pk]['cm'])) or 1
+            steps.append(st)
+            continue
+        form = rng.choice(forms)
+        st = {'form': form, 'buf': 'A' if rng.random() < 0.8 else 'B', 'call': rng.choice(['cap', 'dist', 'poly', 'poly', 'window'])}
+        if si > 0 and rng.random() < 0.8:
+            how = rng.choice(REFILL[form])
+            st['fill'] = {'how': how}
+            if how in ('assign', 'assign_rows', 'out'):
+                st['fill']['set'] = rng.randrange(nsets)
+            elif how == 'shift':
+                st['fill']['d'] = float(rng.choice([90.0, 180.0, 45.0, -30.0, C.dyadic(rng, -170, 170, 3)]))
+        if rng.random() < 0.15:
+            st['view'] = True
+        st['k'] = rng.randrange(len(polys))
+        st['c'] = rng.randrange(len(polys[st['k']]['cm']))
+        if rng.random() < 0.25:
+            st['ncaps'] = rng.randint(1, 4)
+        steps.append(st)
+    return {'f': 'reuse', 'polys': polys, 'cart_sets': cart_sets, 'radec_sets': radec_sets, 'steps': steps}
 
 
 # ---------------------------------------------------------------- set_use_caps jobs
@@ -956,9 +1120,15 @@ def correspond(ctx, proof_ok=True):
         jobs.append(gen_exact_cap_job(rng))
     for _ in range(ctx.n(10, 100)):
         jobs.append(gen_history_job(rng))
+    for k in range(ctx.n(12, 120)):
+        jobs.append(gen_reuse_job(rng, k))
+    # large inputs first in their own batches (they take ~1-3 s each): put them at the front of the job list
+    rot = rng.randrange(3)      # every pattern (tile / random / runs) occurs in every run; which size gets which rotates
+    big = [gen_large_job(rng, k + rot, nm) for k, nm in enumerate(LARGE_THOROUGH if ctx.thorough else LARGE_QUICK)]
+    jobs = big + jobs
     nb = C.NPROC
     batches = [jobs[i::nb] for i in range(nb)]
-    strip = ('kinds', 'allcaps', 'onecap', 'ilk', 'dupkinds', 'exact', 'ladder')
+    strip = ('kinds', 'allcaps', 'onecap', 'ilk', 'dupkinds', 'exact', 'ladder', 'size_class')
     outs = C.run_impl_parallel('c12_impl.py', [[{k: v for k, v in j.items() if k not in strip} for j in b] for b in batches])
     results = [None] * len(jobs)
     for bi, o in enumerate(outs):
@@ -983,6 +1153,8 @@ def correspond(ctx, proof_ok=True):
             base = V.get('f8', {})
             for name in names:
                 v = V[name]
+                if name in TOLERANT_VARIANTS:
+                    continue
                 if 'err' in v:
                     direct.append((ji, 'C12:storage-type:%s:impl=%s' % ('/'.join(j['variants'][name]), v['err']),
                                    'storage variant %s (x, cm, points as %s) raised %s %s' % (name, j['variants'][name], v['err'], v.get('msg', '')),
@@ -1000,18 +1172,27 @@ def correspond(ctx, proof_ok=True):
                 ptt = C.coq_list([vec_t(pts[i]) for i in keep])
 
                 def exps(key, conv):
-                    out = []
+                    # -> (variant names judged, their expected lists); a tolerant variant (list / tuple input) that raised is
+                    # left out and counted, one that answered is judged like every other
+                    out, used = [], []
                     for nm in good:
                         row = V[nm][key + '_' + form]
+                        if isinstance(row, dict) and nm in TOLERANT_VARIANTS:
+                            count('storage-type:%s:%s:rejected-with-%s' % (nm, 'RA/Dec' if form == 'radec' else 'cartesian', row.get('err')))
+                            continue
+                        used.append(nm)
                         out.append('[]' if isinstance(row, dict) else conv([row[i] for i in keep]))
-                    return C.coq_list(out)
-                info = {'mode': form, 'keep': keep, 'pts': pts, 'routes': good, 'types': True}
-                terms.append((ji, dict(info, what='is_in_cap'), '(CPoly %s 0 %s %s)' % (poly_t(P1), ptt, exps('cap', boolist))))
-                terms.append((ji, dict(info, what='is_in_polygon', poly=0),
-                              '(CPoly %s %s %s %s)' % (poly_t(P), C.zlit(j['ncaps']), ptt, exps('poly', boolist))))
-                terms.append((ji, dict(info, what='is_in_window'),
-                              '(CWindow [%s] %s %s %s)' % (poly_t(P), C.zlit(j['ncaps']), ptt, exps('win', zlist))))
-                for nm in good:
+                    return used, C.coq_list(out)
+                info = {'mode': form, 'keep': keep, 'pts': pts, 'types': True}
+                used, ex = exps('cap', boolist)
+                terms.append((ji, dict(info, what='is_in_cap', routes=used), '(CPoly %s 0 %s %s)' % (poly_t(P1), ptt, ex)))
+                used, ex = exps('poly', boolist)
+                terms.append((ji, dict(info, what='is_in_polygon', poly=0, routes=used),
+                              '(CPoly %s %s %s %s)' % (poly_t(P), C.zlit(j['ncaps']), ptt, ex)))
+                used, ex = exps('win', zlist)
+                terms.append((ji, dict(info, what='is_in_window', routes=used),
+                              '(CWindow [%s] %s %s %s)' % (poly_t(P), C.zlit(j['ncaps']), ptt, ex)))
+                for nm in used:
                     count('storage-type:%s:%s' % (nm, 'RA/Dec' if form == 'radec' else 'cartesian'), 3 * len(keep))
             continue
         if j['f'] == 'history':
@@ -1070,6 +1251,120 @@ def correspond(ctx, proof_ok=True):
                 if kind not in ('setuse',) and rec['post'] != rec['pre']:
                     direct.append((ji, 'C12:caller-data:modified', 'call %d (%s) changed use_caps of a polygon: %s -> %s' % (oi, kind, rec['pre'], rec['post']),
                                    {'op_index': oi}, True))
+            continue
+        if j['f'] == 'large':
+            n, m = j['n'], len(j['pts'])
+            why = stored_equal([dict(p) for p in j['polys']], r['polys'])
+            if why:
+                direct.append((ji, 'C12:large-N:stored-polygon-differs', 'keyword-constructed polygons differ from what was passed: %s' % why, {}, True))
+            for form in ('cart', 'radec'):
+                o = r[form]
+                pts = j['pts'] if form == 'cart' else [xyz_of_radec(rd) for rd in j['radec']]
+                if o.get('modified'):
+                    direct.append((ji, 'C12:caller-data:modified', 'a call with %d points changed the caller\'s point array' % n, {'input': form}, True))
+                entries = [('is_in_window', o['window'], None)] + [('is_in_polygon', e, e['k']) for e in o['inpoly']]
+                if 'cap' in o:
+                    entries.append(('is_in_cap', o['cap'], None))
+                for fn, e, pk in entries:
+                    routes, expects = [], []
+                    present = None
+                    for part in ('whole', 'split'):
+                        sm = e[part]
+                        if 'err' in sm:
+                            direct.append((ji, 'C12:large-N:%s:impl=%s' % (fn, sm['err']),
+                                           '%s on %d points (%s%s) raised %s %s' % (fn, n, form, ', passed as two calls' if part == 'split' else '',
+                                                                                   sm['err'], sm.get('msg', '')), {'input': form, 'n': n}, True))
+                            continue
+                        want_dt = 'int32' if fn == 'is_in_window' else 'bool'
+                        if sm['dtype'] != want_dt:
+                            direct.append((ji, 'C12:large-N:%s:result-dtype' % fn, '%s on %d points returns dtype %s, not %s' % (fn, n, sm['dtype'], want_dt),
+                                           {'input': form, 'n': n}, True))
+                        if sm['n_nonuniform']:
+                            nu = sm['nonuniform']
+                            direct.append((ji, 'C12:large-N:%s:same-point-different-answers-within-one-call' % fn,
+                                           '%s on %d points (%s input, pattern %s%s): %d positions do not get the answer that the same point gets at '
+                                           'its first position; e.g. position %d holds small point #%d %s and gets %d, position %d holds the same '
+                                           'point and gets %d' % (fn, n, form, j['pattern'], ', passed as two calls split at %d' % j['split'] if part == 'split' else '',
+                                                                  sm['n_nonuniform'], nu['position'], nu['point'], pts[nu['point']], nu['answer'],
+                                                                  nu['first_position'], nu['answer_at_first_position']),
+                                           {'input': form, 'n': n, 'detail': nu, 'polygon_index': pk}, True))
+                        present = sm['present'] if present is None else [i for i in present if i in set(sm['present'])]
+                        for occ in ('first', 'last'):
+                            routes.append('%s:%s-occurrence' % (part, occ))
+                            expects.append(sm[occ])
+                    if e.get('same') and e['same']['n_differ']:
+                        d = e['same']
+                        direct.append((ji, 'C12:large-N:%s:one-call-differs-from-two-calls' % fn,
+                                       '%s on %d points (%s input) differs at %d positions from the same points passed as [:%d] and [%d:]; e.g. '
+                                       'position %d (small point #%d %s): %d in one call, %d in two' % (fn, n, form, d['n_differ'], j['split'], j['split'],
+                                                                                                      d['position'], d['point'], pts[d['point']], d['whole'], d['split']),
+                                       {'input': form, 'n': n, 'detail': d, 'polygon_index': pk}, True))
+                    if fn == 'is_in_window' and e.get('flag_ok') is not True:
+                        direct.append((ji, 'C12:is_in_window:flag-vs-index', 'flag vector is not (index >= 0) for %d points: %s' % (n, e.get('flag_ok')),
+                                       {'input': form, 'n': n}, True))
+                    if not routes:
+                        continue
+                    keep = sorted(present)
+                    ptt = C.coq_list([vec_t(pts[i]) for i in keep])
+                    info = {'what': 'large', 'fn': fn, 'mode': form, 'keep': keep, 'pts': pts, 'routes': routes, 'poly': pk}
+                    if fn == 'is_in_window':
+                        term = '(CWindow %s %s %s %s)' % (C.coq_list([poly_t(p) for p in j['polys']]), C.zlit(j['ncaps']), ptt,
+                                                         C.coq_list([zlist([ex[i] for i in keep]) for ex in expects]))
+                    else:
+                        P = j['polys'][pk] if fn == 'is_in_polygon' else {'x': [j['cap']['x']], 'cm': [j['cap']['cm']], 'use_caps': 1}
+                        term = '(CPoly %s %s %s %s)' % (poly_t(P), C.zlit(j['ncaps'] if fn == 'is_in_polygon' else 0), ptt,
+                                                       C.coq_list([boolist([bool(ex[i]) for i in keep]) for ex in expects]))
+                    terms.append((ji, info, term))
+                    count('large-N:%s:%s:n=%s:%s' % (fn, 'RA/Dec' if form == 'radec' else 'cartesian', j['size_class'], j['pattern']), 2 * n)
+            continue
+        if j['f'] == 'reuse':
+            seen_buf = set()
+            for si, (st, rec) in enumerate(zip(j['steps'], r['reuse'])):
+                res = rec['res']
+                raised = isinstance(res, dict) and 'err' in res
+                if 'edit' in st:
+                    count('reuse:polygon-edited-in-place:%s' % st['edit'])
+                    if raised:
+                        direct.append((ji, 'C12:reuse:runner', 'in-place edit %s failed: %s' % (st, res), {'step': si}, False))
+                    continue
+                cur = rec.get('polys')
+                if cur is None or any('err' in g for g in cur):
+                    direct.append((ji, 'C12:reuse:runner', 'step %d: polygon state unavailable: %s' % (si, res), {'step': si}, False))
+                    continue
+                form = st['form']
+                content = rec['content']
+                pts = content if form == 'cart' else [xyz_of_radec(rd) for rd in content]
+                call = st['call']
+                if rec.get('modified'):
+                    direct.append((ji, 'C12:caller-data:modified', 'step %d (%s) changed the caller\'s coordinate array' % (si, call), {'step': si}, True))
+                if call == 'window' and not raised and rec.get('flag_ok') is not True:
+                    direct.append((ji, 'C12:is_in_window:flag-vs-index', 'flag vector is not (index >= 0) at step %d of a reuse sequence' % si, {'step': si}, True))
+                bufkey = form + st['buf']
+                situation = ('refilled:' + st['fill']['how']) if st.get('fill') else ('same-content-again' if bufkey in seen_buf else 'first-use')
+                seen_buf.add(bufkey)
+                info = {'what': 'reuse', 'step': si, 'call': call, 'mode': form, 'pts': pts, 'content': content, 'situation': situation}
+                ncaps = st.get('ncaps', 0)
+                if call in ('cap', 'dist'):
+                    P = cur[st['k']]
+                    P = {'x': [P['x'][st['c']]], 'cm': [P['cm'][st['c']]], 'use_caps': 1}
+                    caps_here, nc_t = list(zip(P['x'], P['cm'])), 0
+                elif call == 'poly':
+                    P = cur[st['k']]
+                    caps_here, nc_t = list(zip(P['x'], P['cm'])), ncaps
+                else:
+                    caps_here, nc_t = [(x, cm) for g in cur for x, cm in zip(g['x'], g['cm'])], ncaps
+                keep = [i for i, pt in enumerate(pts) if all(strict_ok(x, cm, pt) for x, cm in caps_here)]
+                info['keep'] = keep
+                ptt = C.coq_list([vec_t(pts[i]) for i in keep])
+                if call == 'window':
+                    term = '(CWindow %s %s %s [%s])' % (C.coq_list([poly_t(g) for g in cur]), C.zlit(nc_t), ptt,
+                                                       '[]' if raised else zlist([res[i] for i in keep]))
+                else:
+                    term = '(CPoly %s %s %s [%s])' % (poly_t(P), C.zlit(nc_t), ptt, '[]' if raised else boolist([res[i] for i in keep]))
+                terms.append((ji, info, term))
+                count('reuse:points-per-call=%s' % (len(content) if len(content) < 2 else '>=2'))
+                count('reuse:%s:%s:%s%s' % ({'cap': 'is_in_cap', 'dist': 'cap_distance', 'poly': 'is_in_polygon', 'window': 'is_in_window'}[call],
+                                            'RA/Dec' if form == 'radec' else 'cartesian', situation, ':new-view' if st.get('view') else ''), len(keep))
             continue
         if j['f'] == 'cap':
             for mode in ('cart', 'radec'):
@@ -1302,6 +1597,48 @@ def correspond(ctx, proof_ok=True):
                    'answer for the state the call started from (%s)' % (oi, j['ops'][oi], str(r['history'][oi]['res'])[:80], r['history'][oi]['pre']),
                    rep, found)
             continue
+        if what == 'large':
+            keep, pts = info['keep'], info['pts']
+            stride = len(keep) + 1
+            route = info['routes'][(pos - 1) // stride] if pos else None
+            pi = (pos - 1) % stride
+            si = keep[pi] if 0 <= pi < len(keep) else None
+            pt = pts[si] if si is not None else None
+            o = r[info['mode']]
+            e = o['window'] if info['fn'] == 'is_in_window' else (o['cap'] if info['fn'] == 'is_in_cap' else
+                                                                  [x for x in o['inpoly'] if x['k'] == info['poly']][0])
+            part, occ = (route or 'whole:first-occurrence').split(':')
+            got = e[part][occ.split('-')[0]][si] if si is not None else None
+            sig = 'C12:large-N:%s:wrong-answer:%s' % (info['fn'], 'property' if found else 'model')
+            rep.update({'job': {k: v_ for k, v_ in j.items() if k != 'kinds'}, 'input': info['mode'], 'n': j['n'], 'route': route,
+                        'small_point_index': si, 'point': pt, 'point_radec': j['radec'][si] if si is not None else None,
+                        'point_kind': j['kinds'][si] if si is not None else None, 'impl_answer': got,
+                        'impl_summary': {k_: v_ for k_, v_ in e.items() if k_ != 'k'}, 'polygon_index': info.get('poly'), 'coq_case': t[:20000],
+                        'how_to_build_the_input': 'points = small[expand_index(m, n, pattern, seed)] (harness/impl/c12_impl.py expand_index)'})
+            report(sig, '%s on %d points (%s input; copies of %d small points, pattern %s): the answer %s at the %s of small point #%s %s '
+                   '(%s) is not what the caps define' % (info['fn'], j['n'], info['mode'], len(pts), j['pattern'], got, route, si, pt,
+                                                        rep['point_kind']), rep, found)
+            continue
+        if what == 'reuse':
+            keep, pts = info['keep'], info['pts']
+            si = info['step']
+            pi = (pos - 1) % (len(keep) + 1) if pos else None
+            ix = keep[pi] if pi is not None and 0 <= pi < len(keep) else None
+            rec = r['reuse'][si]
+            raised = isinstance(rec['res'], dict)
+            fn = {'cap': 'is_in_cap', 'dist': 'cap_distance', 'poly': 'is_in_polygon', 'window': 'is_in_window'}[info['call']]
+            sig = 'C12:reuse:%s:%s-input:%s:%s:%s' % (fn, 'RA/Dec' if info['mode'] == 'radec' else 'cartesian',
+                                                     info['situation'].split(':')[0], 'impl=' + rec['res']['err'] if raised else 'wrong-answer',
+                                                     'property' if found else 'model')
+            rep.update({'job': j, 'failing_step_index': si, 'failing_step': j['steps'][si], 'steps_before': j['steps'][:si],
+                        'array_content_at_the_call': info['content'], 'polygons_at_the_call': rec.get('polys'),
+                        'point': info['content'][ix] if ix is not None else None, 'point_xyz': pts[ix] if ix is not None else None,
+                        'impl_record': {k_: v_ for k_, v_ in rec.items() if k_ != 'polys'}, 'coq_case': t[:20000]})
+            report(sig, 'step %d of a sequence on ONE coordinate array (%s, %s input, array %s): %s gave %s for the contents %s, which is '
+                   'not what the caps define%s' % (si, info['situation'], info['mode'], j['steps'][si]['buf'], fn, str(rec['res'])[:80],
+                                                  str(info['content'])[:120], ' (first wrong point %s)' % info['content'][ix] if ix is not None else ''),
+                   rep, found)
+            continue
         if info.get('types'):
             keep, pts = info['keep'], info['pts']
             stride = len(keep) + 1
@@ -1418,7 +1755,7 @@ def replay(ctx, rep):
     if not j or 'f' not in j:
         print('replay file has no runnable job (kind=%s, item=%s)' % (rep.get('kind'), rep.get('item')))
         return 2
-    strip = ('kinds', 'allcaps', 'onecap', 'ilk', 'dupkinds', 'exact', 'ladder')
+    strip = ('kinds', 'allcaps', 'onecap', 'ilk', 'dupkinds', 'exact', 'ladder', 'size_class')
     out = C.run_impl('c12_impl.py', [{k: v for k, v in j.items() if k not in strip}])
     r = out['results'][0]
     print('signature:', rep.get('signature'))
